@@ -14,21 +14,26 @@ ENGINES = [
          'interleavings of real Python threads code on shim Lock/RLock/'
          'Condition primitives under an owned scheduler, with state-hash '
          'pruning'),
-    dict(name='E2-history-bfs', path='vlib/bfs.py',
+    dict(name='E2-history-bfs', path='checks/c06_particle_array.py',
          serves_properties=['C01', 'C06', 'C07', 'C14', 'C16', 'C17'],
          kind_free_text='explicit-state breadth-first search over operation '
          'histories, each transition calling the real method on a real '
-         'object; reference model comparison in every state'),
-    dict(name='E3-deviation-bounded-environment', path='vlib/choice.py',
+         'object; reference model comparison in every state (the BFS loop '
+         'is instantiated per check: c06, c07, c14, c16, c17, c01 histories)'),
+    dict(name='E3-deviation-bounded-environment',
+         path='checks/c10_solver_loop.py',
          serves_properties=['C10'],
          kind_free_text='real Solver.solve run to completion under every '
          'sequence of environment answers with a bounded number of '
          'non-default answers'),
-    dict(name='E4-bounded-exhaustive-enumeration', path='vlib/lattice.py',
+    dict(name='E4-bounded-exhaustive-enumeration',
+         path='vlib/nnps_util.py',
          serves_properties=['C01', 'C05', 'C07', 'C08', 'C09', 'C11', 'C12',
                             'C13', 'C15', 'C17', 'C19', 'C20'],
          kind_free_text='complete enumeration of a stated finite input '
-         'lattice / configuration product on the real code'),
+         'lattice / configuration product on the real code (lattice and '
+         'multiset generators in vlib/nnps_util.py, per-check products in '
+         'checks/)'),
     dict(name='E5-program-enumeration-vs-reference-interpreter',
          path='vlib/ref/sph_interp.py',
          serves_properties=['C02', 'C03', 'C04'],
@@ -292,6 +297,166 @@ reg('C01', 'model_checking',
     'ExtendedZOrder thread crashes) are listed in known_findings.json.',
     'bounded-exhaustive small-scope enumeration of configurations and '
     'update histories on the real classes', 'E2-history-bfs')
+
+
+
+reg('C02', 'translation_validation',
+    'Program enumeration against a reference interpreter: (a) every shipped '
+    'Equation subclass (288 discovered, each instantiated from a generic '
+    'value table) and (b) a bounded grammar of user-style equations - each '
+    'of the 21 precomputed pair symbols (and pairs of symbols) x every '
+    'kernel x dims 1-3 x three destination/source wirings with every '
+    'per-pair value stored in its own slot; every ordered pair of terminals '
+    '(typed and strided properties, constants, scalar attributes, t, dt, '
+    'XIJ, literals) x {+,-,*,/} in each of five hooks; feature templates '
+    '(declared ints and matrices, loops, branches, helper functions, '
+    'attributes changed after construction, typed writes, reduce, libm, '
+    'SPH_KERNEL in loop_all) and all ordered 2-3 equation groups of '
+    'non-commuting equations - is generated, compiled by the real tool '
+    'chain and executed; the same Python methods are executed by '
+    'vlib/ref/sph_interp.py (independent precomputed-symbol table, Python '
+    'kernel classes, bounds-checked array views) on the same arrays and '
+    'neighbour lists. Every property and constant is compared: bit '
+    'equality for arithmetic-only code, 1e-12 relative where libm or a '
+    'kernel is involved. This is per-program validation of the '
+    'translation, exhaustive over the stated grammar.',
+    'Trusted: the reference interpreter as the reading of the documented '
+    'semantics; value tables used to instantiate shipped classes. Shipped '
+    'classes that cannot be instantiated generically or whose methods '
+    'cannot run in the bounds-checked pure-Python reference are listed '
+    'under not_covered in the evidence. OpenMP off; GPU back-ends not '
+    'covered. int/int division and unsigned arithmetic are outside the '
+    'documented subset and not generated.',
+    'bounded program enumeration, real code generator + compiler vs '
+    'reference interpreter',
+    'E5-program-enumeration-vs-reference-interpreter')
+
+
+reg('C03', 'model_checking',
+    'A bounded grammar of group trees is enumerated and every program is '
+    'executed twice (t=0, t=1) by the generated+compiled evaluator and by '
+    'the reference interpreter; particle data and the log of Python '
+    'callbacks (pre, post, condition, py_initialize, reduce) must be '
+    'identical. Grammar: all 128 subsets of the seven hooks in one group '
+    '(non-commutative integer trace arithmetic, so any re-ordering or '
+    'extra/missing call changes the result); every single (thorough: every '
+    'pair of) flag deviation(s) - real, index ranges as numbers and as '
+    'constant names incl. empty ranges, iterate x (min,max) x convergence '
+    'after 1, 2, 4, never, condition true/false/time dependent, pre, post, '
+    'update_nnps - of a three-equation group followed by a '
+    'neighbour-dependent probe group; two-group programs over all '
+    'destination/source wirings of three arrays; sub-groups with their own '
+    'flags inside five kinds of parents (plain, pre+post, condition, '
+    'update_nnps, iterated).',
+    'Trusted: the reference interpreter (the model of the documented '
+    'order); programs are packed 24 per generated module with a boundary '
+    'group that snapshots and resets the arrays. A generated module that '
+    'does not compile is bisected to the offending program and reported. '
+    'OpenMP off (C05 covers thread counts).',
+    'bounded program enumeration, real code generator + compiler vs '
+    'reference interpreter, with callback-trace comparison',
+    'E5-program-enumeration-vs-reference-interpreter')
+
+
+reg('C04', 'model_checking',
+    'Every shipped scheme (17; integrator + steppers + equations as '
+    'configured by the scheme, 1-3 D, with/without solids) is advanced by '
+    'initial_acceleration and two steps of different size through the '
+    'compiled integrator and through vlib/ref/integrator_mirror.py, which '
+    'calls the integrator class\'s own Python one_timestep on a mirror '
+    'object whose stage/compute_accelerations/update_domain/do_post_stage '
+    'methods implement the documented meaning (stepper methods applied to '
+    'real particles only, accelerations by the reference interpreter). In '
+    'addition a grammar of generated integrators (1-5 stages x '
+    'initialize/no initialize x 4 acceleration placement patterns incl. '
+    'update_nnps=False and second equation set x update_domain) x three '
+    'stepper wirings (different classes, same class with different '
+    'attributes, py_stage hooks, arrays without stepper) is run for three '
+    'steps starting at t=0.5 in a periodic domain with non-commutative '
+    'trace steppers; particle state after every step and the post-stage '
+    'callback log must agree bit for bit.',
+    'Trusted: the mirror and the reference interpreter. Scheme cases the '
+    'generic particle block cannot initialise physically (list in '
+    'checks/c12_schemes.py run_not_judged) are listed as skipped. OpenMP '
+    'off.',
+    'bounded program enumeration, compiled integrator vs literal execution '
+    'of one_timestep',
+    'E5-program-enumeration-vs-reference-interpreter')
+
+
+reg('C05', 'exploration',
+    'Three tiny Applications (free surface with a 1.8x smoothing-length '
+    'bump, wall bounded with two arrays, doubly periodic with two fluid '
+    'arrays) are run through Application.run(argv) for six steps under '
+    'every option vector at distance <=1 from the default, the complete '
+    'nnps x cache and nnps x sort-gids planes, threads {1,2,3,4,8,16} x '
+    'sort/cache, every nnps x {2,16} threads, x re-ordering frequency, '
+    '(thorough: nnps x cache x sort x reorder x {serial,2,3,16 threads}); '
+    'final particle state matched by a particle identity property: <=1e-9 '
+    'relative to the default configuration, bit identical among all '
+    'sort-gids runs without re-ordering, repeated runs bit reproducible. '
+    'Enumeration of configurations is complete within the stated product; '
+    'OpenMP interleavings inside a run are not enumerated, hence '
+    'exploration.',
+    'Trusted: identity matching. Combinations the front end refuses with '
+    'NotImplementedError (re-ordering with algorithms that do not define a '
+    'spatial order) are listed as refused. Known findings: sfc and '
+    'strat_sfc on problems with more than one array (same root cause as '
+    'the C01 z-order findings).',
+    'bounded-exhaustive enumeration of front-end configurations with a '
+    'differential oracle', 'E4-bounded-exhaustive-enumeration')
+
+
+reg('C09', 'exploration',
+    'Each pair-symmetric momentum equation shipped (15 classes, with the '
+    'variants of their flags) x every kernel x dims 1-3 x one array / two '
+    'mutually interacting arrays x enumerated small placements (incl. '
+    'pairs only one of whose smoothing lengths reaches, coincident pairs '
+    'excluded) x per-particle value patterns (pressures of both signs, '
+    'mixed masses and h) x 5 neighbour algorithms, evaluated by the real '
+    'compiled evaluator: sum m a = 0 and sum x cross m a = 0 to rounding '
+    'relative to sum |m a|.',
+    'Trusted: which equations are documented as pair symmetric (table in '
+    'checks/c09_conservation.py). Equations with external forces or '
+    'boundaries are excluded by construction.',
+    'bounded-exhaustive enumeration of small particle systems on the real '
+    'compiled equations', 'E4-bounded-exhaustive-enumeration')
+
+
+reg('C12', 'exploration',
+    'Tier A: for all 17 shipped schemes the product of documented option '
+    'values x dim x with/without solid arrays x clean on/off: '
+    'setup_properties + get_equations + configure_solver, then every '
+    'array argument of every equation hook, stepper method and precomputed '
+    'symbol must name an existing property or constant of the right array '
+    'and C type/stride (static check), and for configurations within '
+    'distance 1 of the defaults the code is generated and compiled. Tier '
+    'B: around the defaults the problem is compiled and run for two steps; '
+    'all values must stay finite.',
+    'Trusted: generic particle block and initial values for scheme '
+    'specific properties (checks/c12_schemes.py). Scheme cases the generic '
+    'block cannot initialise physically are compiled but their two-step '
+    'run is not judged (run_not_judged). 3 recorded findings (GTVF with '
+    'solids, PSPH/TSPH with has_ghosts).',
+    'bounded-exhaustive enumeration of scheme configurations on the real '
+    'set-up and code generation path', 'E4-bounded-exhaustive-enumeration')
+
+
+reg('C14', 'model_checking',
+    'Breadth-first search over histories of Interpolator interface calls '
+    '(interpolate of several properties, set_interpolation_points, '
+    'update, update_particle_arrays with fresh arrays, move sources; depth '
+    '2 quick / 3 thorough) for 5 methods x 9 kernel/dim pairs x one/two '
+    'source arrays x non-periodic/periodic domain; after every call the '
+    'values (and for order1 the gradient) at every target are compared '
+    'with a direct NumPy evaluation of the defining sums over all source '
+    'particles incl. periodic images; constant and (order1) linear fields '
+    'must be reproduced.',
+    'Trusted: the NumPy reference sums; targets with a source exactly at '
+    'the cut-off and ill-conditioned moment matrices (cond>1e6) are left '
+    'open.',
+    'explicit-state BFS over operation histories of the real object '
+    'against a reference model', 'E2-history-bfs')
 
 
 def main():
